@@ -17,7 +17,7 @@ import tempfile
 import shutil
 
 VERIF = os.path.dirname(os.path.dirname(os.path.abspath(__file__)))
-WORK = "/tmp/okseed-work"
+WORK = os.environ.get("OKSEED_WORK", "/tmp/okseed-work")
 sys.path.insert(0, VERIF)
 
 
